@@ -232,7 +232,9 @@ func (e *expansionSingle) eval(cfg *Config, opts *options) (string, error) {
 		return "", err
 	}
 
-	ref := newReference(parsePathWithOpts(path, opts))
+	// like the operator forms: with the separator the string was parsed with,
+	// not with whatever the reading call happens to pass
+	ref := newReference(parsePath(path, e.pathSep, opts.maxIdx, opts.enableNumKeys, opts.escapePath))
 	return ref.eval(cfg, opts)
 }
 
